@@ -485,6 +485,19 @@ Theorem C06_registration_stores_own : forall ct mh u x,
 Proof. exact (fun ct mh u x H => do_split_own u x (store1_own ct mh u x H)). Qed.
 Print Assumptions C06_registration_stores_own.
 
+(* TIE BY TRANSLATION: idpyoidc.util.split_uri as it reads in /repo/src NOW (coq/Gen/Src_uri.v, regenerated by
+   harness/py2v.py on every run) computes the model's split_uri (what do_split / store1 above store).
+   The three urllib.parse functions it calls are parameters of the translation, instantiated with the urllib model of
+   Model/RegUri.v (validated against CPython on every run); the statement is about the glue: the fragment and the query
+   are dropped from the base, the base is re-assembled from this URI's own scheme / netloc / path, the second component
+   is parse_qs of this URI's own query, or None when there is none. *)
+From Verif Require Lib.PyOps Gen.Src_uri Proofs.Src_refine_uri.
+Theorem C06_split_uri_is_source : forall uri clock,
+  Src_uri.split_uri_src Src_refine_uri.env_parse_qs Src_refine_uri.env_urlsplit Src_refine_uri.env_urlunsplit (VStr uri) clock
+  = Src_refine_uri.lift_pv (RegUri.split_uri uri) Src_refine_uri.inject_split_uri.
+Proof. exact Src_refine_uri.split_uri_refines. Qed.
+Print Assumptions C06_split_uri_is_source.
+
 (* the response names one URI per URI sent, each computed from its own stored pair *)
 Theorem C06_registration_echo : forall ct co l st ec,
   register ct co l = Ok (st, ec) ->
